@@ -104,11 +104,13 @@ CHECKS["C14"] = dict(
    text="Lean proofs over four small models on the set_attr hook protocol: page size/page shift coherence after every history of sets (undefined shifts "
         "explicit); CPU registers as views of the PRSTATUS blob in the dump's byte order (a read equals the blob bytes, a write patches exactly its own "
         "bytes, read after write, stable under all histories); release string -> version code (incl. a model of strtoul), unreadable after the release is "
-        "cleared; VMCOREINFO: the line splitter is lossless, parsed lines and kdump_vmcoreinfo_line equal the last row per key, the raw text is preserved. "
+        "cleared; VMCOREINFO: the line splitter is lossless, parsed lines and kdump_vmcoreinfo_line equal the last row per key, the typed SYMBOL/NUMBER/"
+        "OFFSET/SIZE/LENGTH values and kdump_vmcoreinfo_symbol equal the parse of the last row per key (no value when it does not parse), the raw text is preserved. "
         "Tie: the public API on fresh contexts and on generated ELF dumps for eight architecture/byte-order pairs; the implemented register layout is "
         "discovered on every run and compared with an ELF core ABI table (264 register attributes); independent Python oracles.",
-   note=TB + "Typed-value completeness and the page-size/shift statement including clears are false for the code (witness examples in C14.lean) and are "
-        "recorded as KNOWN_FINDINGS (clear-page-size-shift, vmci-dotted-prefix, vmci-stale-typed, vmci-leading-dot); ten other defects were repaired.",
+   note=TB + "The page-size/shift statement including clears and texts with dotted-prefix / leading-dot keys are false for the code (witness examples in "
+        "C14.lean) and are recorded as KNOWN_FINDINGS (clear-page-size-shift, vmci-dotted-prefix, vmci-leading-dot); eleven other defects were repaired "
+        "(the last: vmci-stale-typed, after which typed-value completeness is a theorem: vmci_typed_last_row).",
    technique="Lean 4 proof (coherence invariants over all histories) + differential correspondence", design="§6 C14")
 CHECKS["C19"] = dict(
    text="Lean proofs over a model of the xc_core page index of elfdump.c (pfn2idx_map_start/addrange/add/end/search with 64-bit wrap-around arithmetic, "
